@@ -35,6 +35,7 @@ import (
 	"github.com/99designs/gqlgen/graphql/executor"
 
 	"verif/internal/ev"
+	"verif/internal/gdump"
 	"verif/internal/sjson"
 	"verif/internal/univ"
 	"verif/work/farm/cur/fed1"
@@ -180,6 +181,7 @@ type response struct {
 	errs     []string
 	reqErrs  []string
 	timedOut bool
+	hung     string // goroutine dump when the request is provably never answered
 }
 
 func (pe *probeEnv) run(rec *recorder, reps []map[string]any) *response {
@@ -213,6 +215,18 @@ func (pe *probeEnv) run(rec *recorder, reps []map[string]any) *response {
 	select {
 	case <-done:
 	case <-time.After(90 * time.Second):
+		// every stub resolver returns promptly: when the operation's goroutines sit in a stable
+		// blocked state inside the generated federation code, the request will never be answered
+		gs, stable := gdump.WaitGone([]string{"verif/work/farm/cur/"}, nil, nil, 0, time.Second)
+		if len(gs) > 0 && stable {
+			var sb strings.Builder
+			for i, g := range gs {
+				if i < 6 {
+					sb.WriteString(g.Text + "\n")
+				}
+			}
+			return &response{timedOut: true, hung: sb.String()}
+		}
 		return &response{timedOut: true}
 	}
 	return out
@@ -286,8 +300,15 @@ func (pe *probeEnv) runCase(c execCase, res *result, seed int64) {
 		return map[string]any{"case": cc, "list": meta, "fault_identity": pl.FaultID}
 	}
 	if resp.timedOut {
-		res.inconclusive(fmt.Sprintf("watchdog: %s case %d did not answer within 90s", c.Probe, c.Index))
 		timeouts.Add(1)
+		if resp.hung != "" {
+			d := caseDetail()
+			d["why"] = "the _entities request is never answered: every entity resolver returned, the operation's goroutines are in a stable blocked state inside the generated code"
+			d["goroutines"] = resp.hung
+			res.violate("entities-request-never-answered", d)
+			return
+		}
+		res.inconclusive(fmt.Sprintf("watchdog: %s case %d did not answer within 90s", c.Probe, c.Index))
 		return
 	}
 	if len(resp.reqErrs) > 0 {
